@@ -231,6 +231,11 @@ func (g *Gen) Target() []*GVsys {
 			}
 			side := func() []string {
 				switch n := g.Rng.Intn(10); {
+				case n < 1 && len(v.Groups) > 1:
+					// Two groups in one list (rules from raw files).
+					i := g.Rng.Intn(len(v.Groups))
+					j := (i + 1 + g.Rng.Intn(len(v.Groups)-1)) % len(v.Groups)
+					return []string{v.Groups[i][0], v.Groups[j][0]}
 				case n < 4 && len(v.Groups) > 0:
 					return []string{v.Groups[g.Rng.Intn(len(v.Groups))][0]}
 				case n < 5:
